@@ -10,5 +10,6 @@ CONSTANTS
   MaxGen = 2
   CfgSW = TRUE
   CfgNidl = FALSE
+  CfgSO = FALSE
 INVARIANTS InvC06Step InvC06Once InvC06Gone
 CHECK_DEADLOCK FALSE
